@@ -383,8 +383,20 @@ def r11_5(cx):
     ok = is_agg(t, r'QueuedSet$') and is_agg(t[3]['set'], r'Option$', 'Some')
     cx.report('R11.5', a, 'active', ok, 'QueuedSet::active() carries a set' if ok else 'QueuedSet::active() = %s' % tstr(t, 80))
     c = cx.body('nfa::noncontiguous::QueuedSet::contains')
-    tb = decision_table(c)
-    ok = tb is not None and any(is_call(expand_vars(c, out), r'BTreeSet.*::contains$') for conds, out, p in tb) and any(out == ('c', 0) for conds, out, p in tb)
+    # every path: the set is consulted for exactly the queried id, or there is no set (inert) and the answer is false
+    SID = cstr(param_at(c, 2))
+    rws = [r for r in summarize(cx.facts, c) if r.end == 'return']
+    consult = inert = 0
+    ok = bool(rws)
+    for r in rws:
+        rt = canon(r.ret)
+        if is_call(rt, r'BTreeSet.*::contains$') and cstr(rt[2][1]) == SID:
+            consult += 1
+        elif rt == ('c', 0) and r.cond(lambda x: canon(x)[0] == 'discr' and cstr(canon(x)).endswith('.set)')) == 0:
+            inert += 1
+        else:
+            ok = False
+    ok = ok and consult >= 1 and inert >= 1
     cx.report('R11.5', c, 'contains', ok, 'contains() consults the set when active, false when inert' if ok else 'QueuedSet::contains deviates')
     i = cx.body('nfa::noncontiguous::QueuedSet::insert')
     ok = len(i.calls(r'BTreeSet.*::insert$')) == 1
@@ -653,6 +665,46 @@ def r03_2(cx):
     cx.report('R16.4', sw, 'matches-iff-match-state', ok, 'a match section is written iff old.is_match()' if ok else 'the match section is not guarded by old.is_match()')
     ext = [(bi, sw.call_term(bi, t)) for bi, t in sw.calls(r'Extend::extend$|Vec.*::extend')]
     okx = any('iter_matches' in tstr(ct, 300) and 'take' not in tstr(ct, 300) and 'skip' not in tstr(ct, 300) and 'rev' not in tstr(ct, 300) for bi, ct in ext)
+    if not okx:
+        # the loop spelling (also what `dst.extend(it.map(|pid| ..))` is rewritten to): a loop that draws from exactly
+        # nnfa.iter_matches(oldsid) and pushes the id of every item, once, unconditionally
+        DSTW, NN, OS = cstr(param_at(sw, 5)), cstr(param_at(sw, 1)), cstr(param_at(sw, 2))
+        for h in sw.loops():
+            try:
+                it_rows = [r for r in loop_rows(cx.facts, sw, h) if r.end != 'diverge']
+                symw = Sym(cx.facts, sw)
+                mods, _ = symw.loop_mods(h)
+                pre = [r for r in Sym(cx.facts, sw, start=0, stop={h}).rows() if r.end == ('stop', h)]
+            except Exception:
+                continue
+            def is_src(t):
+                return is_call(t, r'NFA::iter_matches$') and [cstr(a) for a in t[2]] == [NN, OS]
+            recv = {cstr(canon(c)[1][2][0]): canon(c)[1][2][0] for r in it_rows for c, v in r.conds if canon(c)[0] == 'discr' and is_call(canon(c)[1], r'Iterator::next$')}
+            if len(recv) != 1:
+                continue
+            IT, rt = list(recv.items())[0]
+            if not is_src(rt):
+                src = [l for l in mods if cstr(symw.default_local(l)) == IT and pre and all(l in r.env and is_src(canon(r.env[l])) for r in pre)]
+                if len(src) != 1:
+                    continue
+            good = bool(it_rows)
+            n_some = 0
+            for r in it_rows:
+                v = r.cond(lambda c: canon(c)[0] == 'discr' and is_call(canon(c)[1], r'Iterator::next$') and cstr(canon(c)[1][2][0]) == IT)
+                if isinstance(v, tuple) and v[0] == 'not':
+                    v = 0 if 1 in v[1] else (1 if 0 in v[1] else None)
+                pushes = [canon(c) for c in r.calls(r'Vec.*::push$') if cstr(canon(c)[2][0]) == DSTW]
+                if v == 1:
+                    n_some += 1
+                    item = '(core::iter::Iterator::next(%s) as Some).0' % IT
+                    if len(pushes) != 1 or not re.match(r'^(util::primitives::PatternID::as_u32\(%s\)|%s\.0\.0)$' % (re.escape(item), re.escape(item)), cstr(pushes[0][2][1])) or r.end != ('stop', h) or len(r.conds) != 1:
+                        good = False
+                elif v == 0:
+                    if pushes:
+                        good = False
+                else:
+                    good = False
+            okx = okx or (good and n_some == 1)
     cx.report('R03.2', sw, 'all-matches-in-order', okx, 'all pattern ids of the list are written, in list order' if okx else 'the match list is not written completely / in order')
 
 
